@@ -72,6 +72,9 @@ def register(R):
 
     # ------------------------------------------------------------------ calculate_range_parameter
     def range_post(c):
+        from pyvc.values import Opaque
+        if isinstance(c.result, Opaque):
+            return {}   # call site: the result is defined by construction (see _range_result)
         eng, st = c.engine, c.new.st
         i, n, p, t = c.a_part_index, c.a_num_parts, c.a_part_size, c.a_total_size
         last = (i == n - 1)
@@ -176,10 +179,21 @@ def register(R):
     )
 
 
+def range_term(eng, lo, hi=None):
+    """The header string as an opaque term (the engine's injection of structured strings)."""
+    return eng.fstr_as_u(range_header(lo, hi))
+
+
 def _range_result(c):
-    """Result constructor at call sites: the structured header the postcondition describes."""
-    i, n, p, t = c.a_part_index, c.a_num_parts, c.a_part_size, c.a_total_size
-    raise NotImplementedError('call-site result of calculate_range_parameter is built by the caller contract')
+    """Result at call sites: the header the postcondition describes, as one opaque string term."""
+    from pyvc.values import Opaque
+    eng = c.engine
+    i, n, p, t = to_int_term(c.a_part_index), to_int_term(c.a_num_parts), to_int_term(c.a_part_size), c.a_total_size
+    last = (i == n - 1)
+    closed_inner = range_term(eng, i * p, (i + 1) * p - 1)
+    open_last = range_term(eng, i * p)
+    closed_last = range_term(eng, i * p, t.val - 1)
+    return Opaque(z3.If(last, z3.If(t.is_none, open_last, closed_last), closed_inner), kind='str', label='range')
 
 
 def _init_adjuster(c, st):
